@@ -1,5 +1,6 @@
 import ParryModel.Field
 import ParryModel.C05.Model
+set_option linter.style.haveILetI false
 /-!
 # C05 helper lemmas (ordered-field algebra shared by the projection theorems)
 -/
@@ -180,5 +181,62 @@ theorem tri_face_inside (A B C s t : K) (hA : 0 < A) (hC : 0 < C) (hD : 0 < A * 
     · exact fun ⟨x, y, z⟩ => hab ⟨x, by linarith, by linarith⟩
     · exact fun ⟨x, y, z⟩ => hac ⟨by linarith, by linarith, by linarith⟩
   exact ⟨h2, h1, by linarith⟩
+
+/-! ## Isometries: a unit quaternion / unit complex acts as a distance-preserving bijection -/
+
+/-- squared distance (the specification's metric) -/
+def dsq3 (p q : V3 K) : K := (p.x - q.x) * (p.x - q.x) + (p.y - q.y) * (p.y - q.y) + (p.z - q.z) * (p.z - q.z)
+def dsq2 (p q : V2 K) : K := (p.x - q.x) * (p.x - q.x) + (p.y - q.y) * (p.y - q.y)
+
+section iso
+variable (sq : K → K)
+
+theorem iso3_invRot_rot (m : Iso3 K) (v : V3 K)
+    (hq : m.qi * m.qi + m.qj * m.qj + m.qk * m.qk + m.qw * m.qw = 1) :
+    @Iso3.invRot K (fieldNum K sq) m (@Iso3.rot K (fieldNum K sq) m v) = v := by
+  letI := fieldNum K sq
+  apply v3_ext <;> simp only [Iso3.invRot, Iso3.rot, Iso3.rotQ, Iso3.qv, V3.cross, V3.smul, V3.add, V3.neg, fieldNum_two]
+  · linear_combination (-4 * (m.qj * (m.qi * v.y - m.qj * v.x) - m.qk * (m.qk * v.x - m.qi * v.z))) * hq
+  · linear_combination (-4 * (m.qk * (m.qj * v.z - m.qk * v.y) - m.qi * (m.qi * v.y - m.qj * v.x))) * hq
+  · linear_combination (-4 * (m.qi * (m.qk * v.x - m.qi * v.z) - m.qj * (m.qj * v.z - m.qk * v.y))) * hq
+
+theorem iso3_rot_invRot (m : Iso3 K) (v : V3 K)
+    (hq : m.qi * m.qi + m.qj * m.qj + m.qk * m.qk + m.qw * m.qw = 1) :
+    @Iso3.rot K (fieldNum K sq) m (@Iso3.invRot K (fieldNum K sq) m v) = v := by
+  letI := fieldNum K sq
+  apply v3_ext <;> simp only [Iso3.invRot, Iso3.rot, Iso3.rotQ, Iso3.qv, V3.cross, V3.smul, V3.add, V3.neg, fieldNum_two]
+  · linear_combination (-4 * (m.qj * (m.qi * v.y - m.qj * v.x) - m.qk * (m.qk * v.x - m.qi * v.z))) * hq
+  · linear_combination (-4 * (m.qk * (m.qj * v.z - m.qk * v.y) - m.qi * (m.qi * v.y - m.qj * v.x))) * hq
+  · linear_combination (-4 * (m.qi * (m.qk * v.x - m.qi * v.z) - m.qj * (m.qj * v.z - m.qk * v.y))) * hq
+
+theorem iso3_rot_dsq (m : Iso3 K) (x y : V3 K)
+    (hq : m.qi * m.qi + m.qj * m.qj + m.qk * m.qk + m.qw * m.qw = 1) :
+    dsq3 (@Iso3.rot K (fieldNum K sq) m x) (@Iso3.rot K (fieldNum K sq) m y) = dsq3 x y := by
+  letI := fieldNum K sq
+  simp only [dsq3, Iso3.rot, Iso3.rotQ, Iso3.qv, V3.cross, V3.smul, V3.add, fieldNum_two]
+  linear_combination (4 * ((m.qj * (x.z - y.z) - m.qk * (x.y - y.y)) ^ 2 + (m.qk * (x.x - y.x) - m.qi * (x.z - y.z)) ^ 2
+    + (m.qi * (x.y - y.y) - m.qj * (x.x - y.x)) ^ 2)) * hq
+
+theorem iso2_invRot_rot (m : Iso2 K) (v : V2 K) (hq : m.re * m.re + m.im * m.im = 1) :
+    @Iso2.invRot K (fieldNum K sq) m (@Iso2.rot K (fieldNum K sq) m v) = v := by
+  letI := fieldNum K sq
+  apply v2_ext <;> simp only [Iso2.invRot, Iso2.rot]
+  · linear_combination (v.x) * hq
+  · linear_combination (v.y) * hq
+
+theorem iso2_rot_invRot (m : Iso2 K) (v : V2 K) (hq : m.re * m.re + m.im * m.im = 1) :
+    @Iso2.rot K (fieldNum K sq) m (@Iso2.invRot K (fieldNum K sq) m v) = v := by
+  letI := fieldNum K sq
+  apply v2_ext <;> simp only [Iso2.invRot, Iso2.rot]
+  · linear_combination (v.x) * hq
+  · linear_combination (v.y) * hq
+
+theorem iso2_rot_dsq (m : Iso2 K) (x y : V2 K) (hq : m.re * m.re + m.im * m.im = 1) :
+    dsq2 (@Iso2.rot K (fieldNum K sq) m x) (@Iso2.rot K (fieldNum K sq) m y) = dsq2 x y := by
+  letI := fieldNum K sq
+  simp only [dsq2, Iso2.rot]
+  linear_combination ((x.x - y.x) ^ 2 + (x.y - y.y) ^ 2) * hq
+
+end iso
 
 end C05
